@@ -526,11 +526,11 @@ func gadgetRecombineScenario(ch chain, nQ, nP int) engine.Scenario {
 						switch {
 						case class == "noP-base2=0" && levelQ > 0:
 							// known input class: see FINDINGS.md (every leaf of this class fails; nothing else is checked in it)
-							fail(c, sigNoPBase2Zero, "%s", msg)
+							c.Fail(sigNoPBase2Zero, "%s", msg)
 							return
 						case inUncovered:
 							// known input class; keep judging the other coefficients of this leaf
-							fail(c, "C02/pow2/BaseTwoDecompositionVectorSize/digits-do-not-cover-modulus", "%s", msg)
+							c.Fail("C02/pow2/BaseTwoDecompositionVectorSize/digits-do-not-cover-modulus", "%s", msg)
 							uncovered++
 						default:
 							fail(c, "C02/gadget/GadgetProductLazy/"+class+"/recombination", "%s", msg)
@@ -608,7 +608,7 @@ func pow2Scenario(ch chain) engine.Scenario {
 					// the digits the gadget product actually uses (j < BaseTwoDecompositionVectorSize) must already give x
 					for l := 0; l < N; l++ {
 						if acc[l] != in[l] {
-							fail(c, "C02/pow2/BaseTwoDecompositionVectorSize/digits-do-not-cover-modulus", "q=%d (bit length %d) base2=%d: BaseTwoDecompositionVectorSize=%d digits recombine x=%d to %d", q, bits.Len64(q-1), pw2, nDig, in[l], acc[l])
+							c.Fail("C02/pow2/BaseTwoDecompositionVectorSize/digits-do-not-cover-modulus", "q=%d (bit length %d) base2=%d: BaseTwoDecompositionVectorSize=%d digits recombine x=%d to %d", q, bits.Len64(q-1), pw2, nDig, in[l], acc[l])
 							// the remaining digits are still checked below
 							break
 						}
